@@ -83,8 +83,22 @@ def run_checked(sc, therm=None):
     model.addCouplingModel(Obs())
     t_end = 0.0
     truncated = False
-    for k, dur in enumerate(sc["durations"]):
-        t_end = (model.pData.time[-1] if k else 0.0) + dur
+    calls = list(enumerate(sc["durations"]))
+    if sc.get("reset_rerun"):
+        # the documented way to run the same model again: reset() (results cleared, parameters kept), then solve
+        calls.append(("reset", sc["durations"][0]))
+    while calls:
+        k, dur = calls.pop(0)
+        if k == "reset":
+            # (also after a run that was cut off by the harness's step cap: the cap fires between steps, the model is intact)
+            model.reset()
+            truncated = False
+            tap.steps = 0
+            out.label("reset_and_rerun")
+            k = len(sc["durations"])
+            t_end = dur
+        else:
+            t_end = (model.pData.time[-1] if k else 0.0) + dur
         try:
             model.solve(dur, solverType=tap, minDtFrac=sc.get("minDtFrac", 1e-8), maxDtFrac=sc.get("maxDtFrac", 1))
         except H.StepCap:
@@ -97,8 +111,10 @@ def run_checked(sc, therm=None):
             out.info["model"] = model
             return out, model, tap, True
         wellformed(out, model, t_end=t_end, truncated=truncated, tag="after solve call %d: " % k)
-        if truncated or out.viol:
+        if out.viol or (truncated and not sc.get("reset_rerun")):
             break
+        if truncated:
+            calls = [c for c in calls if c[0] == "reset"]      # skip the remaining ordinary calls, go to the reset (if any)
     return out, model, tap, truncated
 
 
@@ -226,14 +242,18 @@ def _binary_fault_case(draw):
 @st.composite
 def _wide_scenario(draw):
     if draw(st.integers(0, 2)) == 2:
-        return draw(scen.toy_multi_scenario(cap=250))
-    return draw(scen.toy_binary_scenario(cap=300, allow_elastic=True))
+        sc = draw(scen.toy_multi_scenario(cap=250))
+    else:
+        sc = draw(scen.toy_binary_scenario(cap=300, allow_elastic=True))
+    if draw(st.integers(0, 3)) == 3:
+        sc["reset_rerun"] = True          # after the solve calls: reset() and one more run on the same model
+    return sc
 
 
 def clauses():
     return [
         Clause("wellformed", _wide_scenario, check_wellformed, quick=200, thorough=3000, shrink=False,
-               rule="generator: toy binary (1-3 phases) and toy ternary (1-2 phases) scenarios over the whole option product (alloys inside/outside the two-phase field, profiles, sites, shapes, fixed/adaptive grids, every dt constraint toggle, minDtFrac, both iterators, 1-3 solve calls), no faults; "
+               rule="generator: toy binary (1-3 phases) and toy ternary (1-2 phases) scenarios over the whole option product (alloys inside/outside the two-phase field, profiles, sites, shapes, fixed/adaptive grids, every dt constraint toggle, minDtFrac, both iterators, 1-3 solve calls, 1 in 4 followed by reset() and another run on the same model), no faults; "
                     "oracle after every solve call: end time, strictly increasing times, 16 aligned finite histories, PSD >= 0, fractions and compositions in [0,1], total fraction <= 1, radii >= 0, no internal error; non-trivial: >= 50 steps"),
         Clause("faults_multi", _multi_fault_case, check_faults_multi, quick=160, thorough=3000, shrink=False,
                rule="generator: toy ternary scenario x scripted fault schedule {single, early, sparse, burst, dense up to 0.5/call} for the growth query (returns None) and optionally the impingement factor (falls back); same oracle; non-trivial: a growth fault injected while the driving force is positive in a run that holds precipitates"),
